@@ -1,4 +1,4 @@
-import QipVerif.Lemmas.RenderLinks3
+import QipVerif.Lemmas.RenderTotal
 /-!
 # C20 — text drawings of circuits are well-formed pictures of the circuit
 
@@ -7,9 +7,16 @@ Property theorems only.  `Render.render v sty c` is the model of
 exception); `Render.layoutSt` is the renderer's state when `print_circuit` is called.
 All theorems are for every number of wires, every circuit and every style.
 
-The clause "all rows of equal width" is **false** for the code as it is
-(`equal_width_refuted`, witnesses `equal_width_counterexample_*`): it is proved under the
-decidable hypothesis `circOk` (`equal_width_partial`).
+`Render.Variant` says which of the four repairs fixes/C20-1 … C20-4 the modelled tree contains
+(read from the source on every check); `Variant.repaired` has all four, `{}` none (the tree as
+shipped).  **Headline for the repaired tree: `well_formed_repaired`, `equal_width`, `draws_iff`.**
+
+The clause "all rows of equal width" is **false** for the shipped code
+(`equal_width_refuted`, witnesses `equal_width_counterexample_*`) and the clause "the drawing
+succeeds" is false for it on circuits with `GLOBALPHASE` and, still on a tree without fixes/C20-4,
+on circuits with a measurement whose result is not stored (`global_gate_not_drawn`,
+`unstored_measurement_not_drawn`); for every variant both are proved under the decidable hypothesis
+`circOk` (`equal_width_partial`, `draw_succeeds`), which on the repaired tree every valid circuit meets.
 -/
 namespace QipVerif.C20
 open QipVerif.Render
@@ -498,19 +505,78 @@ below say what the repairs add.  Which variant a working tree is, is read from i
 py/props/c20.py (`detect_variant`) and the correspondence is run against that variant. -/
 
 /-- **Equal widths, full strength** — on a tree with the repair `spanFix` (fixes/C20-1) every valid
-circuit (`circValid`: existing, pairwise distinct qubits; one-target measurements into existing
-bits; `end_wire_ext ≥ 0`; a label for every wire; no contiguity clause) is drawn with all rows of
-one width.  (Gates on the whole register are admitted iff the tree also has `globalBox`.) -/
+circuit is drawn with all rows of one width.  `circValid` (decidable) is the property's quantifier
+and nothing more: at least one qubit, any number of classical wires, `end_wire_ext ≥ 0`, default wire
+labels or one custom label (any string, empty and wide ones included) per wire, any `gate_pad > -1`,
+any `align_layer`; every gate has at least one target and existing, pairwise distinct qubits — any
+number of targets and controls, controls above, below and between the targets, targets with gaps,
+any name (`SWAP` included) and any label; every measurement has one existing target and stores
+into an existing bit or nowhere.  No bound on the number of wires or elements.  Classical controls
+of a gate are not part of the model: the renderer never reads them (checked on the source and by
+the correspondence), a classically controlled gate is drawn as the plain gate.
+(`v.supports`: gates on the whole register are admitted iff the tree has `globalBox`, measurements
+without `classical_store` iff it has `measBox`; `Variant.repaired` supports everything.) -/
 theorem equal_width (v : Variant) (hv : v.spanFix = true) (sty : Style) (c : Circ) (rows : List Str)
-    (hc : circValid sty c = true) (hg : ∀ op ∈ c.ops, op.isGlob = true → v.globalBox = true)
+    (hc : circValid sty c = true) (hg : ∀ op ∈ c.ops, v.supports op = true)
     (h : render v sty c = .ok rows) : EqualWidth rows :=
   equal_width_partial v sty c rows (circOk_of_valid hv hg hc) h
 
 /-- … and the drawing of every valid circuit succeeds. -/
 theorem draw_succeeds_valid (v : Variant) (hv : v.spanFix = true) (sty : Style) (c : Circ)
-    (hc : circValid sty c = true) (hg : ∀ op ∈ c.ops, op.isGlob = true → v.globalBox = true) :
+    (hc : circValid sty c = true) (hg : ∀ op ∈ c.ops, v.supports op = true) :
     ∃ rows, render v sty c = .ok rows :=
   draw_succeeds v sty c (circOk_of_valid hv hg hc)
+
+/-- On the repaired tree every valid circuit meets the hypothesis `circOk` of `equal_width_partial`,
+`draw_succeeds`, `links_reach_control`, `links_reach_swap`, `links_reach_measure`,
+`unstored_measurement_box` — they hold for **every valid circuit**. -/
+theorem valid_covered (sty : Style) (c : Circ) (hc : circValid sty c = true) :
+    circOk Variant.repaired sty c = true :=
+  circOk_of_valid rfl (fun op _ => supports_repaired op) hc
+
+/-- **Headline (repaired tree).**  For every valid circuit and every style the text drawing
+succeeds and consists of three rows per quantum and classical wire, all of one width. -/
+theorem well_formed_repaired (sty : Style) (c : Circ) (hc : circValid sty c = true) :
+    ∃ rows, render Variant.repaired sty c = .ok rows ∧ rows.length = 3 * (c.N + c.C) ∧ EqualWidth rows := by
+  obtain ⟨rows, h⟩ := draw_succeeds_valid Variant.repaired rfl sty c hc (fun op _ => supports_repaired op)
+  exact ⟨rows, h, three_rows_per_wire _ _ _ _ h,
+    equal_width Variant.repaired rfl sty c rows hc (fun op _ => supports_repaired op) h⟩
+
+/-- a valid circuit with every kind of element: TOFFOLI with controls on both sides, SWAP, stored and
+unstored measurement, a box on targets with a gap and controls above, inside and below, a gate
+on the whole register; 14 wires (two-digit labels) -/
+example : circValid { padNum := 3, padDen := 2 }
+    { N := 11, C := 3, ops := [.gate ['T','O','F','F','O','L','I'] none [1] (some [0, 10]), .gate swapName none [9, 2] none,
+      .meas [10] 2, .measNS [4], .gate ['U'] (some []) [3, 7, 5] (some [1, 4, 8]), .glob ['G'] none] } = true := by
+  decide +kernel
+
+/-! ## the drawing succeeds — exactly when -/
+
+/-- **Totality, exact** (every variant of the tree).  The drawing succeeds iff the circuit is
+`drawable` (decidable): `_add_wire_labels` has at least one and at most `N + C` labels, and every
+element (independently of the others) is of a kind the tree draws (`v.supports`), has at least one
+target, mentions only wire indices `< N + C`, and `align_layer` is not used without qubits.
+Everything else raises — and nothing else does: a gate may "act" on a classical wire index, repeat
+a qubit, have a control equal to a target, a measurement may store into a bit that does not exist;
+such circuits are drawn (as garbage) and are outside `circValid`. -/
+theorem draws_iff (v : Variant) (sty : Style) (c : Circ) :
+    (∃ rows, render v sty c = .ok rows) ↔ drawable v sty c = true := render_isOk_iff v sty c
+
+/-- every valid circuit is drawable by the repaired tree -/
+theorem valid_drawable (sty : Style) (c : Circ) (hc : circValid sty c = true) :
+    drawable Variant.repaired sty c = true :=
+  drawable_of_valid rfl (fun op _ => supports_repaired op) hc
+
+-- both sides of `draws_iff` occur: drawable (also invalid: qubit 2 of 2 is the classical wire), not drawable
+example : drawable Variant.repaired exStyle exCirc = true ∧
+    drawable Variant.repaired {} { N := 2, C := 1, ops := [.gate ['X'] none [2] none, .gate ['U'] none [0, 0] (some [0])] } = true ∧
+    drawable Variant.repaired {} { N := 2, C := 1, ops := [.gate ['X'] none [3] none] } = false ∧
+    drawable Variant.repaired {} { N := 2, C := 1, ops := [.gate ['U'] none [] (some [0])] } = false ∧
+    drawable Variant.repaired { labels := some [] } { N := 2, C := 1, ops := [] } = false ∧
+    drawable Variant.repaired { labels := some [[], [], [], []] } { N := 2, C := 1, ops := [] } = false ∧
+    drawable {} {} { N := 2, C := 1, ops := [.measNS [0]] } = false ∧
+    renderErr Variant.repaired {} { N := 2, C := 1, ops := [.gate ['X'] none [3] none] } = some .index := by
+  decide +kernel
 
 /-- the two counter-examples of the shipped tree are drawn with equal widths by the repaired one,
 and the control between the targets gets its node (`█` = 9608 at column 13 of the middle row of qubit 2) -/
@@ -566,5 +632,63 @@ theorem global_gate_covered (v : Variant) (hv : v.globalBox = true) (N : Nat) (h
 
 example : rowWidths { globalBox := true } {} { N := 3, C := 1, ops := [.glob ['G','L','O','B','A','L','P','H','A','S','E'] none, .meas [1] 0] }
     = some (List.replicate 12 33) := by decide +kernel
+
+/-! ## a measurement whose result is not stored (`classical_store = None`; fixes/C20-4) -/
+
+/-- **A measurement without `classical_store` cannot be drawn by a tree without fixes/C20-4**: the
+drawing of every circuit containing one raises (`TypeError: unsupported operand type(s) for +:
+'NoneType' and 'int'` in `layout`; `IndexError` if it has no target either).  Such measurements are
+valid circuit elements (the simulator runs them, the TeX renderer draws them, tests/test_circuit.py
+builds them). -/
+theorem unstored_measurement_not_drawn (v : Variant) (hv : v.measBox = false) (sty : Style) (c : Circ)
+    (ts : List Nat) (hmem : Op.measNS ts ∈ c.ops) (rows : List Str) : render v sty c ≠ .ok rows := by
+  intro h
+  obtain ⟨st, hst, _⟩ := render_ok h
+  obtain ⟨st0, st1, _, h1, _⟩ := layoutSt_ok hst
+  obtain ⟨pl, hpl⟩ := steps_plan_ok h1 _ hmem
+  cases ts <;> simp [plan, hv] at hpl
+
+/-- … it is the `TypeError` (witness: 2 qubits, 1 classical bit, `add_measurement("M", targets=[1])`;
+the other three repairs are present) … -/
+theorem unstored_measurement_counterexample :
+    renderErr { spanFix := true, insideNode := true, globalBox := true } {} { N := 2, C := 1, ops := [.measNS [1]] }
+      = some .type := by decide +kernel
+
+/-- … and with the repair `measBox` it is a covered element (`opOk`), so `draw_succeeds`,
+`equal_width_partial`, `labels_in_order` (label `M` on its target) apply to it … -/
+theorem unstored_measurement_covered (v : Variant) (hv : v.measBox = true) (N t0 : Nat) (h : t0 < N) :
+    opOk v N (.measNS [t0]) = true := by simp [opOk, hv, h]
+
+/-- … drawn as the box `M` on its target with **no link**: in the middle column of the box the
+frames above and below the letter are unbroken (`─`, neither `╥` nor `╨`), and the iteration
+appends nothing to any other wire (its plan is the single box, `plan_measNS`). -/
+theorem unstored_measurement_box (v : Variant) (sty : Style) (c : Circ) (st : St) (hc : circOk v sty c = true)
+    (h : layoutSt v sty c = .ok st) (pre post : List Op) (t0 : Nat)
+    (hops : c.ops = pre ++ .measNS [t0] :: post) :
+    ∃ col, cell st t0 1 col = some 'M' ∧ cell st t0 0 col = some '─' ∧ cell st t0 2 col = some '─' := by
+  obtain ⟨xs, pl, hpl, hcells⟩ := piece_in_picture hc h hops
+  have hop : opOk v c.N (.measNS [t0]) = true := by
+    simp only [circOk, Bool.and_eq_true, List.all_eq_true] at hc
+    exact hc.2 _ (by rw [hops]; simp)
+  have hm : v.measBox = true := by
+    simp only [opOk, Bool.and_eq_true] at hop
+    exact hop.1
+  rw [plan_measNS v hm] at hpl
+  cases hpl
+  simp only [] at hcells
+  obtain ⟨gM, gT, gB⟩ := drawSingleq_M_glyphs sty.pad
+  have hbox : (t0, drawSingleq sty.pad ['M']) ∈ updSingleq [t0] (drawSingleq sty.pad ['M']) := by
+    simp [updSingleq]
+  exact ⟨xs + (drawSingleq sty.pad ['M']).top.length / 2,
+    hcells _ hbox 1 _ _ (by simpa [Seg.row] using gM),
+    hcells _ hbox 0 _ _ (by simpa [Seg.row] using gT),
+    hcells _ hbox 2 _ _ (by simpa [Seg.row] using gB)⟩
+
+example : circOk Variant.repaired {} { N := 2, C := 1, ops := [.gate ['H'] none [1] none, .measNS [1], .meas [0] 0] } = true ∧
+    rowWidths Variant.repaired {} { N := 2, C := 1, ops := [.gate ['H'] none [1] none, .measNS [1], .meas [0] 0] }
+      = some (List.replicate 9 23) ∧
+    (∃ rows, render Variant.repaired {} { N := 2, C := 1, ops := [.gate ['H'] none [1] none, .measNS [1], .meas [0] 0] } = .ok rows ∧
+      (rows[1]?.map (readLabels 1)) = some [['H'], ['M']]) := by
+  refine ⟨by decide +kernel, by decide +kernel, _, rfl, by decide +kernel⟩
 
 end QipVerif.C20
